@@ -1,0 +1,78 @@
+//go:build verif
+
+package kafka
+
+import "fmt"
+
+// Hooks for the /verif harness (build tag `verif` only): access to the Conn's
+// read buffer position and to the unexported request/response methods of Conn
+// (properties C11, C17).
+
+// VerifConnBuffered returns the number of bytes received from the network
+// that the Conn has not consumed yet (must not be called while a Batch is open).
+func VerifConnBuffered(c *Conn) int {
+	c.rlock.Lock()
+	n := c.rbuf.Buffered()
+	c.rlock.Unlock()
+	return n
+}
+
+// VerifConnOps lists the operation names accepted by VerifConnOp.
+func VerifConnOps() []string {
+	return []string{"findCoordinator", "heartbeat", "joinGroup", "leaveGroup", "listGroups",
+		"offsetCommit", "offsetFetch", "syncGroup", "saslHandshake", "saslAuthenticate"}
+}
+
+// VerifConnOp runs one of the unexported group / sasl operations of Conn with
+// a fixed small request and renders the decoded response.
+func VerifConnOp(c *Conn, op string) (string, error) {
+	switch op {
+	case "findCoordinator":
+		r, err := c.findCoordinator(findCoordinatorRequestV0{CoordinatorKey: "g"})
+		return fmt.Sprintf("%d/%s/%d", r.Coordinator.NodeID, r.Coordinator.Host, r.Coordinator.Port), err
+	case "heartbeat":
+		_, err := c.heartbeat(heartbeatRequestV0{GroupID: "g", GenerationID: 1, MemberID: "m"})
+		return "-", err
+	case "joinGroup":
+		r, err := c.joinGroup(joinGroupRequest{GroupID: "g", SessionTimeout: 1000, RebalanceTimeout: 1000, ProtocolType: "consumer",
+			GroupProtocols: []joinGroupRequestGroupProtocolV1{{ProtocolName: "range", ProtocolMetadata: []byte{1}}}})
+		s := fmt.Sprintf("%d/%s/%s/%s", r.GenerationID, r.GroupProtocol, r.LeaderID, r.MemberID)
+		for _, m := range r.Members {
+			s += fmt.Sprintf("/%s:%x", m.MemberID, m.MemberMetadata)
+		}
+		return s, err
+	case "leaveGroup":
+		_, err := c.leaveGroup(leaveGroupRequestV0{GroupID: "g", MemberID: "m"})
+		return "-", err
+	case "listGroups":
+		r, err := c.listGroups(listGroupsRequestV1{})
+		s := fmt.Sprint(len(r.Groups))
+		for _, g := range r.Groups {
+			s += "/" + g.GroupID + ":" + g.ProtocolType
+		}
+		return s, err
+	case "offsetCommit":
+		r, err := c.offsetCommit(offsetCommitRequestV2{GroupID: "g", GenerationID: 1, MemberID: "m",
+			Topics: []offsetCommitRequestV2Topic{{Topic: c.topic, Partitions: []offsetCommitRequestV2Partition{{Partition: c.partition, Offset: 1}}}}})
+		return fmt.Sprint(len(r.Responses)), err
+	case "offsetFetch":
+		r, err := c.offsetFetch(offsetFetchRequestV1{GroupID: "g",
+			Topics: []offsetFetchRequestV1Topic{{Topic: c.topic, Partitions: []int32{c.partition}}}})
+		s := fmt.Sprint(len(r.Responses))
+		for _, t := range r.Responses {
+			for _, p := range t.PartitionResponses {
+				s += fmt.Sprintf("/%d:%d", p.Partition, p.Offset)
+			}
+		}
+		return s, err
+	case "syncGroup":
+		r, err := c.syncGroup(syncGroupRequestV0{GroupID: "g", GenerationID: 1, MemberID: "m"})
+		return fmt.Sprintf("%x", r.MemberAssignments), err
+	case "saslHandshake":
+		return "-", c.saslHandshake("PLAIN")
+	case "saslAuthenticate":
+		b, err := c.saslAuthenticate([]byte("x"))
+		return fmt.Sprintf("%x", b), err
+	}
+	return "", fmt.Errorf("verif: unknown conn op %q", op)
+}
